@@ -2,20 +2,7 @@ From Coq Require Extraction.
 From Coq Require Import ExtrOcamlBasic List ZArith.
 Import ListNotations.
 From Verif Require Import Val Expand MacroLang Engine MacroPrint.
-(* kind 2: the expansion engine on a token list; when the case is the printing of a program, the reference evaluator's
-   answer for that program comes with it (the Spec oracle of the judge).  Out of fuel stays a top-level answer. *)
-Definition engine_entry (x : val) (more : list val) : val :=
-  match Engine.run_case x with
-  | VL [VI (-3)%Z] => v_outoffuel
-  | r => VL (r :: more)
-  end.
-Definition verif_entry (v : val) : val :=
-  match v with
-  | VL [VI 0%Z; x] => Expand.run_expand_case x
-  | VL [VI 1%Z; x] => MacroLang.run_prog x
-  | VL [VI 2%Z; x] => engine_entry x []
-  | VL [VI 2%Z; x; p] => engine_entry x [MacroLang.run_prog p]
-  | VL [VI 3%Z; p] => MacroPrint.print_case p
-  | _ => v_bad_input
-  end.
+(* kinds 0 (Expand.run_expand_case), 1 (MacroLang.run_prog), 2 (Engine.run_case [+ reference evaluator]), 3 (MacroPrint.print_case):
+   the dispatcher is Spec/MacroPrint.c02_entry, so that the vm_compute cross-check of the thorough tier can name it *)
+Definition verif_entry := MacroPrint.c02_entry.
 Extraction "model.ml" verif_entry.
